@@ -375,6 +375,13 @@ template <typename Assertion>
 } // namespace etl
 #endif
 
+// libubsan carries its own copy of sanitizer_common, so its fatal reports do not run the ASan death callback:
+// hook the report itself (all UBSan checks are built -fno-sanitize-recover, so every report is fatal).
+#if !defined(VF_NO_MAIN)
+    #define VF_HAS_UBSAN_HOOK 1
+extern "C" void __ubsan_on_report(void) { vf::on_death(); }
+#endif
+
 // ------------------------------------------------------------------ to be provided by the harness
 void vf_run(vf::Ctx&);
 std::string vf_replay(std::string const& sub, std::string const& cs);
